@@ -17,5 +17,6 @@ CHECK = {
  'level_text': 'direct algorithms: every state and every input of the (memoryless) controller step, i.e. the complete transition relation, decided exhaustively per configuration; PID: bounded exhaustive catalogue',
  'level_note': 'limits on a grid (step 51 quick / 17 thorough) plus edge ranges; maxPwmChangePerCycle from a list; PID only for the default gains; table validated against untouched closed-loop runs',
  'runs': [{'pkg': 'internal/controller', 'test': 'TestVX_C04', 'shards_quick': 16, 'shards_thorough': 16},
-          {'pkg': 'internal/controller', 'test': 'TestVX_C04pid', 'shards_quick': 2, 'shards_thorough': 15}],
+          {'pkg': 'internal/controller', 'test': 'TestVX_C04pid', 'shards_quick': 2, 'shards_thorough': 15},
+          {'pkg': 'internal', 'test': 'TestVX_C04shared', 'shards_quick': 6, 'shards_thorough': 6}],
 }
